@@ -179,6 +179,10 @@ fn evaluate_positions(case: &Case, items: &[String], labels: &mut Labels) -> Ver
             detail: format!("{} of {} orders are accepted, order #{} is rejected ({})\n--- rejected order ---\n{}", accepted, case.orders.len(), k, why, text(&case.orders[*k])),
         };
     }
+    if accepted == 0 && case.position_ids.iter().any(|i| i.starts_with("invalid:")) {
+        labels.add("single-mention-invalid-rejected-in-every-order");
+        return Verdict::Pass { nontrivial: true };
+    }
     if accepted == 0 {
         // the catalogue is meant to be valid Sylt: a rejected template is a harness defect (see health())
         labels.add(format!("single-mention-rejected:{}:{}", case.position_ids.join("+"), rejected[0].1));
